@@ -105,7 +105,7 @@ def run(ctx):
         cp_flag = None
     r = vlib.rng(ctx.seed, "C15")
     corpus = load_corpus(ctx)
-    n_mono, n_sens, n_gen = (130, 70, 40) if ctx.quick else (2000, 1000, 500)
+    n_mono, n_sens, n_gen = (130, 70, 40) if ctx.quick else (650, 350, 200)
     mono = [c for c in corpus if not c.get("generic")] + [G.gen_case(r) for _ in range(n_mono)] \
         + [G.gen_sensitive_case(r) for _ in range(n_sens)]
     generic = [c for c in corpus if c.get("generic")] + [G.gen_generic_case(r) for _ in range(n_gen)]
@@ -219,6 +219,7 @@ def run(ctx):
         info, "make -f Makefile.C15 C15/Props.vo && coqc C15/Props.v (Print Assumptions)",
         ["Coq 8.16.1 kernel; vm_compute in witnesses/examples only",
          "props/C15/tr_loop.py: reading of the loop in OverloadedFunctionDef.check_call/synthesize_call (order, suppress(GuppyError), deepcopy of args) and of _Guppy.overload (func_ids in decorator order)",
+         "coq/C15/ProofsSpec.v: the declarative reference (sig_accepts/checks/synthesizes on annotation-free source expressions) is the written-down meaning of 'the signature accepts the arguments'; tc is proved equal to it (ref_correct), fuel is proved sufficient (enough_fuel)",
          "coq/C15/Overload.v is a hand-written model of the argument-checking fragment of expr_checker.py (monomorphic types nat/int/float/bool/tuples; literals, tuples, names, nested calls); it is tied to the code by the differential harness only",
          "tools/repo_shim.py, props/C15/impl_overload.py (canonicalisation of the checked AST), props/C15/gen_cases.py",
          "the generic loop theorem (Proofs.LoopFacts) assumes an attempt is a function of (variant, argument nodes): no other state (globals, ctx) is changed by a failed attempt",
